@@ -177,7 +177,7 @@ fn sites_from_json(j: &Json) -> u32 {
     m
 }
 
-pub fn run_one(batch_seed: u64, run_index: u64, out: &mut WorkerOut) {
+pub fn run_one(batch_seed: u64, run_index: u64, out: &mut WorkerOut) -> bool {
     let seed = run_seed(batch_seed, run_index);
     let mut d = Delegate::new();
     // histories of the threaded part are a different stream position than the sequential ones
@@ -186,7 +186,8 @@ pub fn run_one(batch_seed: u64, run_index: u64, out: &mut WorkerOut) {
     let (cfg, strategy, enabled) = sched::seeded_config(stream(seed, STREAM_SCHEDULE), plans.len());
     let o = run_plans(&plans, cfg);
     if o.report.watchdog {
-        verifsim::driver::harness_error("thread blocked outside the simulator (watchdog): inconclusive");
+        out.stats.inc("inconclusive.blocked_outside_simulator");
+        return false;
     }
     out.runs += 1;
     out.stats.inc("histories");
@@ -234,6 +235,7 @@ pub fn run_one(batch_seed: u64, run_index: u64, out: &mut WorkerOut) {
         out.violations.push(body);
     }
     out.absorb_digest(run_index, dg.finish());
+    out.violations.len() < 5
 }
 
 fn replay_parts(replay: &Json) -> Result<(History, Vec<u16>, u32), String> {
